@@ -192,12 +192,13 @@ def rule_domainname(repo: Repo) -> RuleResult:
 def rule_sections(repo: Repo) -> RuleResult:
     r = RuleResult("C05.sections", "parse_problem has an arm per section handing it to the matching parser / field",
                    "the parsed problem contains exactly the declared objects, initial facts and goals")
-    f = repo.func("ProblemParser.parse_problem")
+    f = L.fn(repo, "ProblemParser.parse_problem")
     loops = [n for n in ast.walk(f.node) if isinstance(n, ast.For) and isinstance(n.target, ast.Name)]
+    loops = [lp for lp in loops if c01.ConstDispatch(repo, f, lp).mentioned(":goal")]
     if not loops:
         raise AnalysisError("parse_problem: section loop not found")
     var = loops[0].target.id
-    arms = c01._arms_by_constant(f, var)
+    arms = c01._arms_by_constant(f, var, repo, loops[0])
     want = {"problem": ("store", "name"), ":domain": ("call", "parse_domain_name"), ":objects": ("store+call", "objects", "parse_objects"),
             ":init": ("call", "parse_initial_state"), ":goal": ("call", "parse_goal_state")}
     for head, spec in want.items():
@@ -290,7 +291,8 @@ def rule_value(repo: Repo, rid: str = "C05.value", spec: str = "ProblemParser.pa
 def rules(repo: Repo, tier: str) -> List[RuleResult]:
     return [
         rule_validators(repo),
-        c01.rule_nodrop(repo, "C05.nodrop", (PP,), 2, only={"ProblemParser.parse_state_component", "ProblemParser.parse_goal_state"}),
+        c01.rule_nodrop(repo, "C05.nodrop", (PP,), 2, only={"ProblemParser.parse_state_component", "ProblemParser.parse_goal_state"},
+                        anchors=["ProblemParser.parse_state_component", "ProblemParser.parse_goal_state"]),
         rule_domainname(repo),
         rule_sections(repo),
         c01.rule_leftover(repo, "C05.leftover", ["ProblemParser.parse_objects"]),
